@@ -141,6 +141,26 @@ def generate(rng, tier, seed):
         c = Case("reused-header-sequence", {})
         reused_header(c, rng)
         yield c
+    # serialise, switch the version (block size 8 <-> 16) with no other change, serialise again: every residue of the block length
+    for total in range(0, 34):
+        for v1, v2 in (("A", "D"), ("B", "D"), ("D", "B"), ("C", "D")):
+            if tier == "quick" and (total + ord(v1)) % 2:
+                continue
+            c = Case("version-switch", {"total": total, "from": v1, "to": v2})
+            h = make_header(rng, v1, [("KS", rs(rng, total))] if total else [])
+            se = Session(c, rb(rng, 16), h)
+            for ver in (v1, v2, v1):
+                se.set(0, ver)
+                r = se.str()
+                bs = VERS[ver][0]
+                if r.ok and (len(r.value) % bs or r.value[1:5] != str(len(r.value)).zfill(4)):
+                    c.fail(f"str(header) after switching to version {ver} is not a multiple of {bs}: {r.value[:50]}")
+                w = se.wrap(rb(rng, 16), None)
+                if w.ok:
+                    m = framing(w.value, ver, se.kb.header)
+                    if m:
+                        c.fail(f"key block after switching to version {ver}: {m}")
+            yield c
     for ver, (bs, ksizes, ml) in VERS.items():
         if tier == "quick" and ver == "C":
             continue
